@@ -1346,6 +1346,32 @@ fn boundary_ops(rng: &mut Rng, tier: Tier, emit: &mut dyn FnMut(String)) {
             }
         }
     }
+    // ---- equal divisors under different group keys: a main periodic assertion with stride n (one step,
+    // divisor x - g^3) and an auxiliary single assertion at the same step: the prover merges the
+    // auxiliary group into the main group with the equal divisor
+    for n in [8usize, 16] {
+        let mut d = seq_desc(n, 2, vec![], vec![AssertDesc::single(0, 0), AssertDesc::periodic(1, 3, n)], 2, 1);
+        let e = Expr::add(Expr::mul(Expr::Rand(0), Expr::Cur(1)), Expr::Rand(1));
+        let c = Expr::sub(Expr::AuxCur(0), e.clone());
+        let pos = d.num_pub_inputs() - 1;
+        d.aux = Some(AuxDesc {
+            width: 1,
+            num_rands: 2,
+            lagrange: false,
+            cols: vec![AuxGen::Fn(e)],
+            constraints: vec![Constraint { degree: c.degree(&[], n), expr: c }],
+            assertions: vec![AuxAssertDesc {
+                a: AssertDesc::single(0, 3),
+                value: Expr::add(Expr::mul(Expr::Rand(0), Expr::Pub(pos)), Expr::Rand(1)),
+            }],
+        });
+        for field in FieldId::ALL {
+            emit(def_line(field, *rng.pick(&exts(field)), 4, &format!("s{}.3", rng.below(1000)), &d));
+            if let Some(l) = explicit_line(field, 1, 2, rng.below(1000), 2, &d) {
+                emit(l);
+            }
+        }
+    }
     // ---- exemptions, degrees up to 9 (ce blowup 8), number of composition columns
     for (n, deg) in [(8usize, 1u32), (8, 2), (8, 3), (16, 4), (8, 5), (8, 8), (8, 9), (16, 9)] {
         let base = seq_desc(n, deg, vec![], vec![AssertDesc::single(0, 0)], 1, 1);
